@@ -237,7 +237,7 @@ STATES = ["same", "diff-same-type", "other-type-only", "hashed-same", "hashed-di
           "port-entry-diff", "plain-entry-other-port", "none", "multi-host-line-same", "same-plus-other-type",
           "multi-host-line-diff", "mixed-line-hashed-first-diff", "mixed-line-hashed-first-same",
           "hashed-other-line-then-plain-diff", "bare-same-other-port", "bare-same-plus-port-diff",
-          "alias-on-later-line-diff", "alias-on-later-line-same"]
+          "alias-on-later-line-diff", "alias-on-later-line-same", "multi-name-then-conflicting-line"]
 KEYTYPES = ["rsa", "ecdsa", "ed25519"]
 METHODS = ["password", "pkey", "strategy-password", "strategy-pkey"]
 
@@ -320,6 +320,11 @@ def client_case(ctx, idx, combo=None):
         k = server_key if state.endswith("same") else other_same_type
         text += line("gateway.example", k) + line("gateway.example,%s" % name, k)
         known_applies = state.endswith("same")
+    elif state == "multi-name-then-conflicting-line":
+        # our name is pinned to K1 on a line shared with an address; a later line gives that ADDRESS
+        # another key K2 (the one the server presents): our name must stay pinned to K1
+        text += line("%s,10.0.0.5" % name, other_same_type) + line("10.0.0.5", server_key)
+        known_applies = False
     elif state == "bare-same-other-port":
         # the port-22 name lists the very key the server on port 2222 presents: still an unknown host
         text += line(host, server_key)
@@ -338,6 +343,11 @@ def client_case(ctx, idx, combo=None):
         ctx.count("cases_with_system_host_keys")
     else:
         cl.load_host_keys(khpath)
+    if idx % 2 == 0:
+        # the same client object has looked up another host before (a reused SSHClient / HostKeys)
+        cl.get_host_keys().lookup("warmup.example")
+        cl._system_host_keys.lookup("warmup.example")
+        ctx.count("cases_after_an_earlier_lookup_of_another_host")
     pcls, accepts = POLICIES[pol]
     cl.set_missing_host_key_policy(LoggingPolicy(rec, pcls()))
     allowed = known_applies if known_applies is not None else accepts
@@ -451,4 +461,5 @@ def run(ctx):
     ctx.require("accepted_servers_authenticated", 10)
     ctx.require("policy_decisions_observed", 5)
     ctx.require("cases_with_system_host_keys", 10)
+    ctx.require("cases_after_an_earlier_lookup_of_another_host", 20)
     ctx.require("post_kex_auth_ok", 3)
